@@ -114,8 +114,13 @@ structure InvB (c : Cfg) (st : StB) : Prop where
   deadlineGe : ∀ s dl, st.pcB s = .loop → st.deadline s = some dl → st.a.now ≤ dl ∧ st.tbegin s ≤ st.a.now
   hdeadlineEq : ∀ s, (st.bc s).isWait = true → st.hdeadline s = (c.sdTimeout s).map (st.tsd s + ·)
   hdeadlineGe : ∀ s dl, (st.bc s).isWait = true → st.hdeadline s = some dl → st.a.now ≤ dl ∧ st.tsd s ≤ st.a.now
-  /-- the diagnosis is clear while the run is in progress -/
-  diagClear : ∀ s, st.pcB s ≠ .over → st.failT s = false ∧ st.failC s = false
+  /-- the diagnosis while the run is in progress: `_failed_critical` is clear; `_failed_timeout` is set when (and
+      only when) the run leaves its main loop on expiry, before the clean-up — a cancellation delivered
+      during that clean-up overwrites the exit reason, not the diagnosis -/
+  diagClear : ∀ s, st.pcB s ≠ .over →
+      st.failC s = false ∧
+      (st.failT s = true → (st.pcB s).exitOf = some .timeout ∨ (st.pcB s).exitOf = some .cancelled)
+  failTSet : ∀ s, (st.pcB s).exitOf = some .timeout → st.failT s = true
   /-- a cancellation is delivered only to a run that was asked to stop -/
   carrivedCreq : ∀ s, st.carrived s = true → st.pcB s ≠ .notBegun
   -- fields added to make the invariant inductive
@@ -678,6 +683,11 @@ theorem invB_exitLoop (c : Cfg) (w : WF c) (st : StB) (s : Nat) (x : Exit) (nb' 
         intro s'
         have := hinv.diagClear s'
         inv_close
+      failTSet := by
+        intro s'
+        have := hinv.diagClear s'
+        have := hinv.failTSet s'
+        inv_close
       carrivedCreq := by
         intro s'
         have := hinv.carrivedCreq s'
@@ -791,73 +801,83 @@ theorem invB_react (c : Cfg) (w : WF c) (st st' : StB) (s : Nat)
               (fun s' hs' => by simp [setAt, hs'])
               (fun _ h => Or.inl h) (fun _ h => h) (by intro h; cases h) hph hcreq hdeliv hpc hrx hnow
         · split at h
-          · cases h
-          · rename_i hnb a' ha
-            cases h
-            obtain ⟨D2, hD2, ⟨hsn, hss, hpcs⟩, ⟨S, hS, hph⟩, hcreq, hdeliv, hpc, hrx, hnow⟩ := stepA_react_go ha
-            clear ha
-            rw [hD] at hD2; cases hD2
-            obtain ⟨ph', creq', rflag', deliv', entries', dbl', pc', qcount', rx', now'⟩ := a'
-            simp only at hph hcreq hdeliv hpc hrx hnow
-            subst hph hcreq hdeliv hpc hrx hnow
-            have hcr := critIn_false (by simpa using hcrit)
-            have hdl := hinv.didSdLoop s
-            have hsub := hinv.rxSub s D hD
-            have hrl := (hA.rxLoop s D hD).2
-            exact
-              { hinv with
-                loopClean := by
-                  intro s'
-                  have := hinv.loopClean s'
-                  inv_close
-                count := by
-                  intro s' hl
-                  have := hinv.count s' hl
-                  simp only [setAt, rxD] at *
-                  by_cases he : s' = s
-                  · subst he
-                    simp only [if_true, hD, Option.getD_some, Option.getD_none] at *
-                    rw [this]
-                    obtain ⟨q, hq⟩ := hsub
-                    exact count_react (c.children s') D c.forever st.a.deliv q hq hrl
-                  · simp only [if_neg he] at *
-                    exact this
-                noCrit := by
-                  intro s'
-                  have := hinv.noCrit s'
-                  have := hcr
-                  inv_close
-                exitCancelled := by
-                  intro s'
-                  have := hinv.exitCancelled s'
-                  inv_close
-                shutQuiet := by
-                  intro s' x'
-                  have := hinv.shutQuiet s' x'
-                  inv_close
-                sdQuiet := by
-                  intro s'
-                  have := hinv.sdQuiet s'
-                  inv_close
-                relayIdle := by
-                  intro s'
-                  have := hinv.relayIdle s'
-                  have := hinv.hphNone s'
-                  have := hinv.hcallsLe s'
-                  have := hinv.hcallsDid s'
-                  inv_close
-                runPh := by
-                  intro s'
-                  have := hinv.runPh s'
-                  inv_close
-                overQuiet := by
-                  intro s'
-                  have := hinv.overQuiet s'
-                  inv_close
-                rxSub := by
-                  intro s' D'
-                  have := hinv.rxSub s' D'
-                  inv_close }
+          · -- the deadline is reached
+            split at h
+            · cases h
+            · rename_i a' ha
+              cases h
+              obtain ⟨_, ⟨hsn, hss, hpcs, hK⟩, hph, hcreq, hdeliv, hpc, hrx, hnow⟩ := stepA_react_leave ha
+              exact invB_exitLoop c w st s .timeout _ st.carrived a' hA hinv hloop
+                (fun s' hs' => by simp [setAt, hs'])
+                (fun _ h => Or.inl h) (fun _ h => h) (by intro h; cases h) hph hcreq hdeliv hpc hrx hnow
+          · split at h
+            · cases h
+            · rename_i hnb hexp a' ha
+              cases h
+              obtain ⟨D2, hD2, ⟨hsn, hss, hpcs⟩, ⟨S, hS, hph⟩, hcreq, hdeliv, hpc, hrx, hnow⟩ := stepA_react_go ha
+              clear ha
+              rw [hD] at hD2; cases hD2
+              obtain ⟨ph', creq', rflag', deliv', entries', dbl', pc', qcount', rx', now'⟩ := a'
+              simp only at hph hcreq hdeliv hpc hrx hnow
+              subst hph hcreq hdeliv hpc hrx hnow
+              have hcr := critIn_false (by simpa using hcrit)
+              have hdl := hinv.didSdLoop s
+              have hsub := hinv.rxSub s D hD
+              have hrl := (hA.rxLoop s D hD).2
+              exact
+                { hinv with
+                  loopClean := by
+                    intro s'
+                    have := hinv.loopClean s'
+                    inv_close
+                  count := by
+                    intro s' hl
+                    have := hinv.count s' hl
+                    simp only [setAt, rxD] at *
+                    by_cases he : s' = s
+                    · subst he
+                      simp only [if_true, hD, Option.getD_some, Option.getD_none] at *
+                      rw [this]
+                      obtain ⟨q, hq⟩ := hsub
+                      exact count_react (c.children s') D c.forever st.a.deliv q hq hrl
+                    · simp only [if_neg he] at *
+                      exact this
+                  noCrit := by
+                    intro s'
+                    have := hinv.noCrit s'
+                    have := hcr
+                    inv_close
+                  exitCancelled := by
+                    intro s'
+                    have := hinv.exitCancelled s'
+                    inv_close
+                  shutQuiet := by
+                    intro s' x'
+                    have := hinv.shutQuiet s' x'
+                    inv_close
+                  sdQuiet := by
+                    intro s'
+                    have := hinv.sdQuiet s'
+                    inv_close
+                  relayIdle := by
+                    intro s'
+                    have := hinv.relayIdle s'
+                    have := hinv.hphNone s'
+                    have := hinv.hcallsLe s'
+                    have := hinv.hcallsDid s'
+                    inv_close
+                  runPh := by
+                    intro s'
+                    have := hinv.runPh s'
+                    inv_close
+                  overQuiet := by
+                    intro s'
+                    have := hinv.overQuiet s'
+                    inv_close
+                  rxSub := by
+                    intro s' D'
+                    have := hinv.rxSub s' D'
+                    inv_close }
   · cases h
 
 theorem invB_timeoutFire (c : Cfg) (w : WF c) (st st' : StB) (s : Nat)
@@ -950,6 +970,11 @@ theorem invB_cancelArrive (c : Cfg) (w : WF c) (st st' : StB) (s : Nat)
           diagClear := by
             intro s'
             have := hinv.diagClear s'
+            inv_close
+          failTSet := by
+            intro s'
+            have := hinv.diagClear s'
+            have := hinv.failTSet s'
             inv_close
           carrivedCreq := by
             intro s'
@@ -1072,6 +1097,11 @@ theorem invB_cancelArrive (c : Cfg) (w : WF c) (st st' : StB) (s : Nat)
             intro s'
             have := hinv.diagClear s'
             inv_close
+          failTSet := by
+            intro s'
+            have := hinv.diagClear s'
+            have := hinv.failTSet s'
+            inv_close
           carrivedCreq := by
             intro s'
             have := hinv.carrivedCreq s'
@@ -1167,6 +1197,11 @@ theorem invB_cancelArrive (c : Cfg) (w : WF c) (st st' : StB) (s : Nat)
           diagClear := by
             intro s'
             have := hinv.diagClear s'
+            inv_close
+          failTSet := by
+            intro s'
+            have := hinv.diagClear s'
+            have := hinv.failTSet s'
             inv_close
           carrivedCreq := by
             intro s'
@@ -1350,6 +1385,12 @@ theorem invB_begin (c : Cfg) (w : WF c) (st : StB) (s : Nat) (a' : StA)
           have := hinv.diagClear s'
           have := hnoch
           inv_close
+        failTSet := by
+          intro s'
+          have := hinv.diagClear s'
+          have := hinv.failTSet s'
+          have := hnoch
+          inv_close
         carrivedCreq := by
           intro s'
           have := hinv.carrivedCreq s'
@@ -1476,6 +1517,11 @@ theorem invB_begin (c : Cfg) (w : WF c) (st : StB) (s : Nat) (a' : StA)
         diagClear := by
           intro s'
           have := hinv.diagClear s'
+          inv_close
+        failTSet := by
+          intro s'
+          have := hinv.diagClear s'
+          have := hinv.failTSet s'
           inv_close
         carrivedCreq := by
           intro s'
@@ -1700,6 +1746,11 @@ theorem invB_finish (c : Cfg) (w : WF c) (st : StB) (s : Nat) (x : Exit) (pick :
               intro s'
               have := hinv.diagClear s'
               inv_close
+            failTSet := by
+              intro s'
+              have := hinv.diagClear s'
+              have := hinv.failTSet s'
+              inv_close
             carrivedCreq := by
               intro s'
               have := hinv.carrivedCreq s'
@@ -1827,6 +1878,11 @@ theorem invB_finish (c : Cfg) (w : WF c) (st : StB) (s : Nat) (x : Exit) (pick :
             diagClear := by
               intro s'
               have := hinv.diagClear s'
+              inv_close
+            failTSet := by
+              intro s'
+              have := hinv.diagClear s'
+              have := hinv.failTSet s'
               inv_close
             carrivedCreq := by
               intro s'
@@ -1989,6 +2045,11 @@ theorem invB_tidyReturn (c : Cfg) (w : WF c) (st st' : StB) (s pick : Nat)
             diagClear := by
               intro s'
               have := hinv.diagClear s'
+              inv_close
+            failTSet := by
+              intro s'
+              have := hinv.diagClear s'
+              have := hinv.failTSet s'
               inv_close
             carrivedCreq := by
               intro s'
@@ -2592,7 +2653,12 @@ theorem invB_sdTimeoutFire (c : Cfg) (w : WF c) (st st' : StB) (s : Nat)
             intro s'
             have := hinv.diagClear s'
             simp only [setAt] at *
-            grind
+            grind [PcB.exitOf]
+          failTSet := by
+            intro s'
+            have := hinv.failTSet s'
+            simp only [setAt] at *
+            grind [PcB.exitOf]
           carrivedCreq := by
             intro s'
             have := hinv.carrivedCreq s'
@@ -2731,5 +2797,42 @@ theorem invB_reach (c : Cfg) (hwf : c.wf = true) (evs : List EvB) (st : StB)
     (h : acceptB c StB.init evs = some st) : InvB c st :=
   (inv_accept c hwf evs StB.init st (invA_init c) (invB_init c) h).2
 
-end AJ.Proofs.CoreB
+/-! ### "the run of `s` times out" as a property of a history
 
+  The exit reason is kept in the program counter only while the run cleans up (and a cancellation delivered during
+  the clean-up overwrites it), so "the run of `s` left its main loop on expiry" is stated over the history: some
+  prefix leads to a state where `co_run` of `s` is in the `_tidy_tasks` of `_abort_on_timeout`
+  (`pcB s = .tidy .timeout`: a state entered only from `.loop`, by `timeoutFire s` or by a reaction that notices the
+  expiry, see `ExitB.exit_reason`). -/
+
+def timesOutFrom (c : Cfg) (s : Nat) (st0 : StB) (evs : List EvB) : Prop :=
+  ∃ pre st1, pre <+: evs ∧ acceptB c st0 pre = some st1 ∧ st1.pcB s = .tidy .timeout
+
+/-- the run of `s` leaves its main loop on expiry somewhere in the history `evs` -/
+def timesOut (c : Cfg) (s : Nat) (evs : List EvB) : Prop := timesOutFrom c s StB.init evs
+
+theorem timesOutFrom_nil (c : Cfg) (s : Nat) (st0 : StB) :
+    timesOutFrom c s st0 [] ↔ st0.pcB s = .tidy .timeout := by
+  constructor
+  · rintro ⟨pre, st1, hp, ha, hx⟩
+    have : pre = [] := List.prefix_nil.1 hp
+    subst this
+    simp only [acceptB] at ha; cases ha; exact hx
+  · intro hx; exact ⟨[], st0, List.nil_prefix, rfl, hx⟩
+
+theorem timesOutFrom_cons (c : Cfg) (s : Nat) (st0 st1 : StB) (e : EvB) (es : List EvB)
+    (h : stepB c st0 e = some st1) :
+    timesOutFrom c s st0 (e :: es) ↔ st0.pcB s = .tidy .timeout ∨ timesOutFrom c s st1 es := by
+  constructor
+  · rintro ⟨pre, st2, hp, ha, hx⟩
+    cases pre with
+    | nil => simp only [acceptB] at ha; cases ha; exact Or.inl hx
+    | cons e' pre' =>
+      obtain ⟨rfl, hp'⟩ := List.cons_prefix_cons.1 hp
+      simp only [acceptB, h] at ha
+      exact Or.inr ⟨pre', st2, hp', ha, hx⟩
+  · rintro (hx | ⟨pre, st2, hp, ha, hx⟩)
+    · exact ⟨[], st0, List.nil_prefix, rfl, hx⟩
+    · exact ⟨e :: pre, st2, List.cons_prefix_cons.2 ⟨rfl, hp⟩, by simp only [acceptB, h]; exact ha, hx⟩
+
+end AJ.Proofs.CoreB
